@@ -66,7 +66,8 @@ func (p *Pool) Get() any {
 		if p.head != nil {
 			head := p.head
 			p.head = head.next
-			if p.maxAge > 0 && head.lastUsed+p.maxAge < timex.Now() {
+			// 用减法比较空闲时长：lastUsed+maxAge 在 maxAge 取极大值（表示“永不过期”）时会溢出，把刚放回的资源当成过期
+			if p.maxAge > 0 && timex.Now()-head.lastUsed > p.maxAge {
 				p.created--
 				p.destroy(head.item)
 				continue
